@@ -3,6 +3,7 @@ import QG.Gen.GateSets
 import QG.Lemmas.GatesDet
 import QG.Lemmas.RelaxationChannel
 import QG.Lemmas.Integrator
+import QG.Lemmas.ExactSamplers
 
 /-!
 # C04 — elementary noisy gates follow the Lindblad noisy-gate model
@@ -442,5 +443,97 @@ theorem relaxation_channel (Dt T1 T2 : ℝ) (hDt : 0 ≤ Dt) (h1 : 0 < T1) (h2 :
     exact_mod_cast hV'
 
 end relaxation
+
+section exact_samplers
+open QG.Lemmas.Exact Complex MeasureTheory ProbabilityTheory
+open scoped ComplexConjugate NNReal Matrix.Norms.Operator
+/-! ## read-out bit flip and idle depolarisation (closed-form samplers) -/
+
+/-- the Pauli operators are Hermitian and square to one: `L†L − L² = 0`, no drift -/
+theorem pauli_drift_zero :
+    σxᴴ * σx - σx * σx = 0 ∧ σyᴴ * σy - σy * σy = 0 ∧ σzᴴ * σz - σz * σz = 0 := by
+  refine ⟨?_, ?_, ?_⟩ <;>
+    (ext a b; fin_cases a <;> fin_cases b <;>
+      simp [σx, σy, σz, Matrix.mul_apply, Fin.sum_univ_two, Matrix.conjTranspose_apply])
+
+/-- **bit flip**: the sample is `exp(i·(e·W)·X)` — ideal gate `1`, drift `0`, noise generator `(e·W)·X` -/
+theorem bitflip_is_exp_noise (tm rout : ℝ) (w : Bitflip.Samples) :
+    Bitflip.construct tm rout w
+      = NormedSpace.exp ((I * (((Bitflip.e rout tm : ℝ) : ℂ) * ((w.W : ℝ) : ℂ))) • σx) := by
+  rw [exp_I_smul_sigmaX]
+  simp only [Bitflip.construct, Bitflip.resultMat]
+
+/-- the flip angle `e·W` has variance `rout`: the Itô isometry for `L = √(rout/tm)·X` acting for the time `tm` -/
+theorem bitflip_angle_variance (tm rout : ℝ) (htm : 0 < tm) (hr : 0 ≤ rout) :
+    (Bitflip.e rout tm) ^ 2 * (Bitflip.std_W tm) ^ 2 = rout := by
+  have hD : 0 < Bitflip.Dtm tm := by unfold Bitflip.Dtm Bitflip.tg; positivity
+  unfold Bitflip.e Bitflip.std_W
+  rw [Real.sq_sqrt (div_nonneg hr hD.le), Real.sq_sqrt hD.le]
+  field_simp
+
+/-- **the bit-flip channel**: the Gaussian shot average of `G ρ G†` is `(1−q) ρ + q XρX` with
+`q = (1 − e^{−2·rout})/2` — the solution of the Lindblad equation with `L = √(rout/tm)·X` after the time `tm` -/
+theorem bitflip_channel (tm rout : ℝ) (htm : 0 < tm) (hr : 0 ≤ rout) (ρ : Matrix (Fin 2) (Fin 2) ℂ)
+    (Δ : ℝ≥0) (hΔ : (Δ : ℝ) = Bitflip.std_W tm ^ 2) (a b : Fin 2) :
+    let G : ℝ → Matrix (Fin 2) (Fin 2) ℂ := fun z => Bitflip.construct tm rout ⟨z⟩
+    let q : ℂ := (1 - cexp (-(2 * rout))) / 2
+    ∫ z, (G z * ρ * (G z)ᴴ) a b ∂(gaussianReal 0 Δ) = ((1 - q) • ρ + q • (σx * ρ * σx)) a b := by
+  intro G q
+  set ε : ℝ := Bitflip.e rout tm with hε
+  have e : ∀ z : ℝ, (G z * ρ * (G z)ᴴ) a b
+      = ((1 / 2 : ℂ) • (ρ + σx * ρ * σx)) a b
+        + ((1 / 2 : ℂ) • (ρ - σx * ρ * σx)) a b * Complex.cos (2 * ε * z)
+        + ((I / 2) • (σx * ρ - ρ * σx)) a b * Complex.sin (2 * ε * z) := by
+    intro z
+    have hc : conj (Complex.cos ((ε : ℂ) * (z : ℂ))) = Complex.cos ((ε : ℂ) * (z : ℂ)) := by
+      rw [← Complex.cos_conj]; simp
+    have hs : conj (Complex.sin ((ε : ℂ) * (z : ℂ))) = Complex.sin ((ε : ℂ) * (z : ℂ)) := by
+      rw [← Complex.sin_conj]; simp
+    have := bitflip_sandwich_alg _ _ hc hs (Complex.cos_sq_add_sin_sq _) ρ a b
+    rw [mul_assoc (2 : ℂ) (ε : ℂ) (z : ℂ), Complex.cos_two_mul, Complex.sin_two_mul]
+    simpa only [G, Bitflip.construct, Bitflip.resultMat, hε] using this
+  simp_rw [e]
+  rw [E_affine_trig Δ ε]
+  have hvar : (ε : ℂ) ^ 2 * ((Δ : ℝ) : ℂ) = (rout : ℂ) := by
+    rw [hΔ, hε]; exact_mod_cast bitflip_angle_variance tm rout htm hr
+  have hk : cexp (-(2 * (ε : ℂ) ^ 2 * ((Δ : ℝ≥0) : ℂ))) = cexp (-(2 * rout)) := by
+    congr 1
+    have : (((Δ : ℝ≥0) : ℂ)) = (((Δ : ℝ)) : ℂ) := rfl
+    rw [this]; linear_combination (-2 : ℂ) * hvar
+  rw [hk]
+  simp only [q, Matrix.smul_apply, Matrix.add_apply, Matrix.sub_apply, smul_eq_mul]
+  ring
+
+/-- **depolarisation**: the argument of `expm` is `i·ed·(W1 X + W2 Y + W3 Z)` (ideal gate `1`, no drift by `pauli_drift_zero`) -/
+theorem depolarizing_generator (Dt p : ℝ) (w : Depolarizing.Samples) :
+    Depolarizing.noiseArg Dt p w
+      = I • (((Depolarizing.ed p : ℝ) : ℂ) • (((w.W1 : ℝ) : ℂ) • σx + ((w.W2 : ℝ) : ℂ) • σy + ((w.W3 : ℝ) : ℂ) • σz)) := by
+  ext a b; fin_cases a <;> fin_cases b <;>
+    simp [Depolarizing.noiseArg, Depolarizing.I1Mat, Depolarizing.I2Mat, Depolarizing.I3Mat, Depolarizing.XMat,
+      Depolarizing.YMat, Depolarizing.ZMat, σx, σy, σz] <;> ring
+
+/-- the generator is Hermitian -/
+theorem depolarizing_generator_hermitian (p : ℝ) (w : Depolarizing.Samples) :
+    (((Depolarizing.ed p : ℝ) : ℂ) • (((w.W1 : ℝ) : ℂ) • σx + ((w.W2 : ℝ) : ℂ) • σy + ((w.W3 : ℝ) : ℂ) • σz)).IsHermitian := by
+  ext a b; fin_cases a <;> fin_cases b <;>
+    simp [σx, σy, σz, Matrix.conjTranspose_apply]
+
+/-- each of the three independent coefficients `ed·W_k` has variance `(p/4)·(Dt/tg)`: the Itô isometry for the constant
+operators `√(p/4)·{X, Y, Z}` (per gate time `tg`) acting for the time `Dt` -/
+theorem depolarizing_variances (Dt p : ℝ) (hDt : 0 ≤ Dt) (hp : 0 ≤ p) :
+    (Depolarizing.ed p) ^ 2 * (Depolarizing.std_W1 Dt) ^ 2 = p / 4 * (Dt / Depolarizing.tg) ∧
+    (Depolarizing.ed p) ^ 2 * (Depolarizing.std_W2 Dt) ^ 2 = p / 4 * (Dt / Depolarizing.tg) ∧
+    (Depolarizing.ed p) ^ 2 * (Depolarizing.std_W3 Dt) ^ 2 = p / 4 * (Dt / Depolarizing.tg) := by
+  have hD : 0 ≤ Depolarizing.Dt_1 Dt := by unfold Depolarizing.Dt_1 Depolarizing.tg; positivity
+  have hp4 : 0 ≤ p / 4 := by positivity
+  unfold Depolarizing.ed Depolarizing.std_W1 Depolarizing.std_W2 Depolarizing.std_W3
+  rw [Real.sq_sqrt hp4, Real.sq_sqrt hD]
+  unfold Depolarizing.Dt_1
+  exact ⟨rfl, rfl, rfl⟩
+
+/-- non-vacuity: a calibrated read-out (`tm = 1 µs`, `rout = 2 %`) meets the hypotheses of `bitflip_channel` -/
+example : (0 : ℝ) < 1e-6 ∧ (0 : ℝ) ≤ 0.02 := by norm_num
+
+end exact_samplers
 
 end QG.C04
